@@ -22,9 +22,14 @@ type Val struct {
 	V string `json:"v,omitempty"`
 }
 
-func vInt(n int64) Val  { return Val{K: "int", V: strconv.FormatInt(n, 10)} }
-func vStr(s string) Val { return Val{K: "str", V: s} }
-func vNull() Val        { return Val{K: "null"} }
+func vInt(n int64) Val     { return Val{K: "int", V: strconv.FormatInt(n, 10)} }
+func vStr(s string) Val    { return Val{K: "str", V: s} }
+func vFloat(f float64) Val { return Val{K: "float", V: strconv.FormatFloat(f, 'g', -1, 64)} }
+func (v Val) float() float64 {
+	f, _ := strconv.ParseFloat(v.V, 64)
+	return f
+}
+func vNull() Val { return Val{K: "null"} }
 func (v Val) int() int64 {
 	n, _ := strconv.ParseInt(v.V, 10, 64)
 	return n
@@ -35,6 +40,8 @@ func (v Val) arg() atrun.Arg {
 		return atrun.Arg{T: "int", V: v.V}
 	case "str":
 		return atrun.Arg{T: "str", V: v.V}
+	case "float":
+		return atrun.Arg{T: "float", V: v.V}
 	}
 	return atrun.Arg{T: "null"}
 }
@@ -42,6 +49,8 @@ func (v Val) lit() string {
 	switch v.K {
 	case "int":
 		return v.V
+	case "float":
+		return strconv.FormatFloat(v.float(), 'e', -1, 64)
 	case "str":
 		return "'" + v.V + "'"
 	}
@@ -84,6 +93,9 @@ func (t *Table) ddl() string {
 func sqlType(c Col) string {
 	if c.Typ == "VARCHAR" {
 		return "VARCHAR(16)"
+	}
+	if c.Typ == "TINYINT" {
+		return "TINYINT"
 	}
 	return c.Typ
 }
@@ -185,6 +197,9 @@ func tagged(v fakedb.TaggedValue) (Val, bool) {
 		return Val{K: "int", V: v.V}, true
 	case "str":
 		return vStr(v.V), true
+	case "float":
+		f, err := strconv.ParseFloat(v.V, 64)
+		return vFloat(f), err == nil
 	}
 	return Val{}, false
 }
@@ -319,22 +334,26 @@ func (s *Stmt) apply(t *Table, st *TabState, auto *int64) ([]Effect, bool) {
 		}
 		return []Effect{e}, true
 	case "upsert":
-		r := s.Rows[0]
-		i := st.find(r.Key)
-		if i < 0 {
-			row := Row{Key: append([]Val{}, r.Key...), Vals: append([]Val{}, r.Vals...)}
-			if len(t.Keys) == 1 && t.Keys[0].AutoInc && row.Key[0].int() >= *auto {
-				*auto = row.Key[0].int() + 1
+		var effs []Effect
+		for _, r := range s.Rows {
+			i := st.find(r.Key)
+			if i < 0 {
+				row := Row{Key: append([]Val{}, r.Key...), Vals: append([]Val{}, r.Vals...)}
+				if len(t.Keys) == 1 && t.Keys[0].AutoInc && row.Key[0].int() >= *auto {
+					*auto = row.Key[0].int() + 1
+				}
+				st.Rows = append(st.Rows, row)
+				effs = append(effs, Effect{Kind: "insert", Table: t.Name, Rows: []Row{row}})
+				continue
 			}
-			st.Rows = append(st.Rows, row)
-			return []Effect{{Kind: "insert", Table: t.Name, Rows: []Row{row}}}, true
+			nv := append([]Val{}, st.Rows[i].Vals...)
+			for _, it := range s.Set {
+				nv[it.Col] = r.Vals[it.Col]
+			}
+			st.Rows[i].Vals = nv
+			effs = append(effs, Effect{Kind: "update", Table: t.Name, Rows: []Row{{Key: r.Key, Vals: append([]Val{}, nv...)}}})
 		}
-		nv := append([]Val{}, st.Rows[i].Vals...)
-		for _, it := range s.Set {
-			nv[it.Col] = r.Vals[it.Col]
-		}
-		st.Rows[i].Vals = nv
-		return []Effect{{Kind: "update", Table: t.Name, Rows: []Row{{Key: r.Key, Vals: append([]Val{}, nv...)}}}}, true
+		return effs, true
 	case "update":
 		mask := make([]bool, len(t.Cols))
 		for _, it := range s.Set {
